@@ -177,6 +177,19 @@ func init() {
 		}
 	}
 	fileTwinWrap = func() {
+		for _, prop := range []string{"C15", "C06", "C16"} {
+			prop := prop
+			if orig := props[prop]; orig != nil {
+				props[prop] = func(run *Run, n int) {
+					if prop == "C06" {
+						addConcurrencyCase(run, run.Seed, 8, 24)
+					} else {
+						addConcurrencyAndReread(run)
+					}
+					orig(run, n)
+				}
+			}
+		}
 		if orig := props["C05"]; orig != nil && c05CliHook != nil {
 			props["C05"] = func(run *Run, n int) {
 				c05CliHook(run, n)
